@@ -8,7 +8,8 @@ from . import common as C
 
 WRAPS = ["socket", "setsockopt", "bind", "listen", "fcntl", "getsockname", "unlink", "daemon", "epoll_create",
          "epoll_ctl", "epoll_wait", "close", "accept", "read", "writev", "timerfd_create", "timerfd_settime",
-         "malloc", "calloc", "realloc", "syslog", "buffered_socket_writev", "init_peer"]
+         "malloc", "calloc", "realloc", "syslog", "buffered_socket_writev", "init_peer", "http_parser_execute",
+         "find_url_handler"]
 
 
 def daemon_sources():
